@@ -1,6 +1,7 @@
 #!/bin/bash
 # runs every seeded change (and every own mutant with a known target) against the check of its property; prints one line each
 cd /verif
+# seeded dirs: C07-1 (round 1), C07-r2-1 (round 2); property = text before the first '-'
 for d in seeded/*/; do
   id=$(basename $d); prop=${id%%-*}
   out=$(tools/seedcheck.sh /verif/$d/patch.diff $prop 2>&1)
@@ -26,4 +27,5 @@ c14_later_list_errors_ignored.diff C14
 c11_monitor_close_does_not_close_subscription.diff C11
 c09_ingresspods_leaks_intermediate_join.diff C09
 c20_typed_monitor_passes_nil_for_foreign.diff C20
+c19_rc_no_template_fallback.diff C19
 LIST
